@@ -326,6 +326,14 @@ class PDLRewriteFunctions(InterpreterFunctions):
             assert isinstance(attribute, Attribute)
 
         type_values = interpreter.get_values(op.type_values)
+        if not op.type_values:
+            # as the lowering to pdl_interp does: an operation without declared result
+            # types that replaces another one takes the result types of that operation
+            for use in op.op.uses:
+                if isinstance(use.operation, pdl.ReplaceOp) and use.index != 0:
+                    (replaced,) = interpreter.get_values((use.operation.op_value,))
+                    type_values = tuple(res.type for res in replaced.results)
+                    break
 
         for type_value in type_values:
             assert isinstance(type_value, TypeAttribute)
